@@ -9,7 +9,6 @@ package main
 
 import (
 	"bytes"
-	"strings"
 	"crypto/aes"
 	"crypto/cipher"
 	"crypto/md5"
@@ -18,6 +17,7 @@ import (
 	"errors"
 	"fmt"
 	"io"
+	"strings"
 
 	"harness/engc"
 	"harness/sim"
